@@ -55,3 +55,22 @@ Example C06_example :
   serialize_changeprog 1 7 1 [(Implicit 4 TNone, 42)] =
   Ok [4; 0; 29; 0; 1; 0; 0; 0; 7; 0; 0; 0; 1; 0; 0; 0; 2; 4; 0; 0; 0; 42; 0; 0; 0; 0; 0; 0; 0].
 Proof. vm_compute. reflexivity. Qed.
+
+(* translator obligations (lib/gen_statespace.py reads the structs, statics and mutable bindings of the
+   modelled code on every run): the code has the state the model represents and no other *)
+From Portus Require Import StateTie.
+From PortusGen Require Import StateSpace.
+From Coq Require Import String.
+Open Scope string_scope.
+Theorem C06_source_handle_state : impl_fields_Datapath = model_fields_Datapath.
+Proof. exact fields_Datapath_tie. Qed.
+Print Assumptions C06_source_handle_state.
+Theorem C06_source_shared_state_lib : nth 0 impl_shared_state_tokens "" = "src/lib.rs: HashMap".
+Proof. exact shared_state_lib. Qed.
+Print Assumptions C06_source_shared_state_lib.
+
+(* the library has one process-wide static, the uid counter: nothing a handle or a lookup could
+   consult instead of the scope it is given *)
+Theorem C06_source_statics : impl_statics = model_statics.
+Proof. exact statics_tie. Qed.
+Print Assumptions C06_source_statics.
